@@ -89,12 +89,20 @@ def c21_revcommute(R):
     tree = R.tree
     m = tree.mod(SI)
     outer = tree.func(SI, "normalize_types")
-    inner = [n for n in ast.walk(outer) if isinstance(n, ast.FunctionDef) and n is not outer and any(isinstance(x, ast.Name) and x.id == "reverse_back" for x in ast.walk(n))]
-    R.need(len(inner) == 1, "normalize_types: the wrapper that handles reversed operands was not found")
+    wrapped = outer.args.args[0].arg
+    inner = [n for n in ast.walk(outer) if isinstance(n, ast.FunctionDef) and n is not outer and any(isinstance(c, ast.Call) and isinstance(c.func, ast.Name) and c.func.id == wrapped for c in ast.walk(n))]
+    R.need(len(inner) == 1, "normalize_types: the wrapper that calls the wrapped operation was not found")
     fn = inner[0]
     ps = [p.arg for p in fn.args.args]
     R.need(len(ps) >= 2, "normalize_types wrapper no longer takes two operands")
-    wrapped = outer.args.args[0].arg
+    # the flag that asks for the result to be reversed back: tested where the result's .reverse() is taken
+    flags = set()
+    for st in walk_no_nested(fn):
+        if isinstance(st, ast.If) and any(isinstance(c, ast.Call) and isinstance(c.func, ast.Attribute) and c.func.attr == "reverse" for b_ in st.body for c in ast.walk(b_)):
+            flags |= {x.id for x in ast.walk(st.test) if isinstance(x, ast.Name)}
+    flags = {f for f in flags if any(isinstance(a, ast.Assign) and any(isinstance(t, ast.Name) and t.id == f for t in a.targets) and isinstance(a.value, ast.Constant) and a.value.value is True for a in walk_no_nested(fn))}
+    R.need(len(flags) == 1, "normalize_types: the flag that asks for the result to be reversed back was not found")
+    flag = next(iter(flags))
     # single-assignment locals that hold a test are read through
     defs = {}
     for st in walk_no_nested(fn):
@@ -121,7 +129,7 @@ def c21_revcommute(R):
 
     n = 0
     for st in walk_no_nested(fn):
-        if not (isinstance(st, ast.Assign) and any(isinstance(t, ast.Name) and t.id == "reverse_back" for t in st.targets) and isinstance(st.value, ast.Constant) and st.value.value is True):
+        if not (isinstance(st, ast.Assign) and any(isinstance(t, ast.Name) and t.id == flag for t in st.targets) and isinstance(st.value, ast.Constant) and st.value.value is True):
             continue
         n += 1
         allowed = None
@@ -287,7 +295,7 @@ def _returns_fresh(m_, methods, depth, seen):
 
 # confirmed by reading, one line of reason each: writes whose receiver the freshness analysis cannot follow
 _FRESH_CONFIRMED = {
-    ("_reverse", "si"): "si is built from the byte slices of the copy o (each the result of a shift or cast_low, i.e. of a "
+    ("_reverse", "_reversed"): "the result is built from the byte slices of the copy o (each the result of a shift or cast_low, i.e. of a "
     "constructor, or a copy) joined by concat, which always constructs its result; only the shift-by-zero path of "
     "_rshift_logical hands back its receiver, and that receiver is the copy o",
 }
@@ -317,8 +325,8 @@ def c21_fresh(R):
                 if not (isinstance(x, ast.Attribute) and x.attr in _VALUE_FIELDS and isinstance(x.value, ast.Name) and x.value.id != "self"):
                     continue
                 n += 1
-                if (name, x.value.id) in _FRESH_CONFIRMED:
-                    R.ok(m, st, f"{name}: `{x.value.id}` - {_FRESH_CONFIRMED[(name, x.value.id)]}")
+                if (name, x.attr) in _FRESH_CONFIRMED and not _fresh(x.value, fn, methods, at=st):
+                    R.ok(m, st, f"{name}: `{x.value.id}.{x.attr}` - {_FRESH_CONFIRMED[(name, x.attr)]}")
                     continue
                 R.check(
                     _fresh(x.value, fn, methods, at=st),
